@@ -61,6 +61,10 @@ def fam_evict(seed, n):
 def fam_probe_delay(seed, n):
     return [scen.probe_delay_script(seed, i) for i in range(n)]
 
+@family("flood_close")
+def fam_flood_close(seed, n):
+    return [scen.flood_after_close_script(seed, i) for i in range(n)]
+
 @family("sockpeer")
 def fam_sockpeer(seed, n):
     return [scen.sockpeer_script(seed, i) for i in range(n)]
@@ -212,7 +216,7 @@ std_check("C06", [("peer_send", 120, 2000), ("xfer", 30, 400)] + KF,
           parts=[("segs", ["C06.", "Segs."]), ("recov", ["C06.", "Recov."])])
 std_check("C07", [("peer_recv", 120, 2000), ("xfer_clean", 20, 200)],
           ["C07.NoSpontaneousAck", "C07.DelayedAck", "C07.ImmediateAck"])
-std_check("C08", [("close", 100, 1500), ("many", 40, 600)],
+std_check("C08", [("close", 100, 1500), ("many", 40, 600), ("flood_close", 12, 100)],
           ["C08.SlotFreed", "C08.EndsInTime"], model_spec=CLOSE_MODEL + SOCK_MODEL)
 std_check("C12", [("many", 80, 1200), ("backlog", 6, 60), ("evict", 16, 64), ("sockpeer", 24, 300)],
           ["C12.KeyUnique", "C12.LimitRespected", "C12.TableAgrees", "C12.RouteAgrees", "C12.DeliverToNamed", "C12.NoEviction",
